@@ -180,7 +180,154 @@ def gate(src):
     src.obs('outcome', [fault, after['fsm']])
 
 
+HISTORY_RULES = ('<root>'
+                 '<application name="mapp"><start_sequence>0</start_sequence><programs><program name="idle">'
+                 '<identifiers>10.0.0.1:25000</identifiers><start_sequence>1</start_sequence></program></programs>'
+                 '</application>'
+                 '<application name="rapp"><start_sequence>1</start_sequence><programs><program name="run">'
+                 '<identifiers>10.0.0.2:25000</identifiers><start_sequence>1</start_sequence></program></programs>'
+                 '</application></root>')
+# the calls issued in real histories: one served variant per gated family and the refusals that must have no effect
+HISTORY_CALLS = ['get_supvisors_state', 'get_all_applications_info', 'get_process_info', 'get_conflicts',
+                 'start_application', 'test_start_application', 'stop_application', 'restart_application',
+                 'start_process', 'test_start_process', 'start_any_process', 'stop_process', 'restart_process',
+                 'conciliate', 'restart_sequence', 'end_sync', 'restart', 'shutdown']
+
+
+LATE_HISTORIES = ('OTHER-IN-ELECTION-BEFORE-ITS-MASTER',)
+OTHER_ONLY = {'OTHER-LOST-ITS-MASTER': 'OPERATION', 'OTHER-IN-ELECTION-BEFORE-ITS-MASTER': 'ELECTION'}
+
+
+def _history(src, target):
+    """a real two-instance cluster (real rules file, fake supervisords) driven to `target` by a real history; returns
+    the cluster and a function that tells whether supervisord work is held"""
+    from rig.cluster import Cluster
+    programs = {0: [('mapp', 'idle'), ('rapp', 'run'), ('uapp', 'free')], 1: [('rapp', 'run'), ('uapp', 'free')]}
+    cfg = {'synchro_options': 'LIST,TIMEOUT', 'synchro_timeout': '15', 'conciliation_strategy': 'USER'}
+    late = target in LATE_HISTORIES
+    cl = Cluster(3 if late else 2, cfg, programs, rules=HISTORY_RULES)
+    if late:
+        cl.crash(2)                 # the third instance is not started yet
+    slow = [True]
+
+    def hold(task):
+        return slow[0] and task[0] == 'supervisord'
+
+    def rounds(k):
+        for _ in range(k):
+            for c in cl.live():
+                c.tick()
+                cl.drain(hold)
+    if target == 'SYNCHRONIZATION':
+        cl.crash(1)
+        rounds(2)
+    elif target == 'DISTRIBUTION':
+        rounds(4)                   # rapp:run is requested on instance 2 and its supervisord does not answer yet
+    else:
+        slow[0] = False
+        rounds(7)                   # OPERATION, rapp:run running on instance 2
+        if target == 'CONCILIATION':
+            cl.cores[0].supervisor_data.set_state('rapp:run', PS.STARTING)
+            cl.cores[0].supervisor_data.set_state('rapp:run', PS.RUNNING)
+            cl.drain()
+            rounds(2)
+        elif target == 'OTHER-LOST-ITS-MASTER':
+            # a single XML-RPC of the other instance to the Master fails: it forgets its Master, the Master sees nothing
+            cl.partition(0, 1)
+            cl.cores[1].tick()
+            cl.drain(hold)
+            cl.heal(0, 1)
+        elif target == 'OTHER-IN-ELECTION-BEFORE-ITS-MASTER':
+            # a third instance joins and the other instance activates it one tick before the Master does
+            cl.restart(2)
+            cl.cores[2].tick()
+            cl.drain(hold)
+            cl.cores[1].tick()
+            cl.drain(hold)
+        elif target in ('RESTARTING', 'SHUTTING_DOWN'):
+            slow[0] = True          # the stop of rapp:run stays pending
+            getattr(cl.cores[0].rpc_intf, 'restart' if target == 'RESTARTING' else 'shutdown')()
+            cl.drain(hold)
+            rounds(1)
+    return cl, hold
+
+
+def _cluster_effects(cl, core):
+    return {'fsm': core.fsm.state.name, 'starting': core.starter.in_progress(), 'stopping': core.stopper.in_progress(),
+            'master': core.state_modes.master_identifier,
+            'outbox': sorted((c.ident, pid, len(p.inbox)) for c in cl.live() for pid, p in c.proxies().items()),
+            'orders': [list(c.supervisor_data.orders) for c in cl.cores],
+            'handler': bool(core.failure_handler.stop_application_jobs or core.failure_handler.restart_application_jobs
+                            or core.failure_handler.restart_process_jobs)}
+
+
+@rigged
+def history_gate(src):
+    """H17h: the gate on instances brought to their state by a real history (Master and non-Master): a real cluster
+    with a real rules file reaches SYNCHRONIZATION / DISTRIBUTION / OPERATION / CONCILIATION / RESTARTING /
+    SHUTTING_DOWN, then one XML-RPC is issued on the Master or on the other instance"""
+    from supervisor.xmlrpc import RPCError
+    target = src.pick('history', ['SYNCHRONIZATION', 'DISTRIBUTION', 'OPERATION', 'CONCILIATION', 'RESTARTING',
+                                  'SHUTTING_DOWN'] + list(OTHER_ONLY))
+    cl, hold = _history(src, target)
+    who = src.pick('instance', ['master', 'other'])
+    src.assume(who == 'master' or target != 'SYNCHRONIZATION')
+    src.assume(who == 'other' or target not in OTHER_ONLY)
+    core = cl.cores[0] if who == 'master' else cl.cores[1]
+    state = core.fsm.state.name
+    src.check('history-reaches-the-state', state == OTHER_ONLY.get(target, target)
+              and (cl.cores[0].state_modes.is_master() or target == 'SYNCHRONIZATION'), sig=f'{target}:{who}',
+              state=state)
+    if target in OTHER_ONLY:
+        src.reach('other-differs-from-its-master')
+    method = src.pick('method', HISTORY_CALLS)
+    variant, args, param_fault = src.pick('variant', [v for v in CALLS[method] if v[0] in ('ok', 'bad_name', 'unmanaged',
+                                                                                           'user')])
+    before = _cluster_effects(cl, core)
+    fault = None
+    try:
+        getattr(core.rpc_intf, method)(*args)
+    except RPCError as exc:
+        fault = exc.code
+    after = _cluster_effects(cl, core)
+    sig = f'{method}:{variant}:{who}'
+    allowed = state in G.GATE.get(method, G.ALL)
+    if method == 'end_sync':
+        allowed = None if state == 'SYNCHRONIZATION' else False        # no USER option here: NOT_APPLICABLE inside
+    if allowed is False:
+        src.reach('gated')
+        src.check('refused-outside-its-states', fault == BAD_STATE, sig=sig, state=state, fault=fault)
+        src.check('refused-request-has-no-effect', before == after, sig=sig, state=state, before=before, after=after)
+    elif allowed:
+        src.reach('allowed')
+        src.check('not-refused-in-its-states', fault != BAD_STATE or method in ('restart_sequence', 'restart',
+                                                                                 'shutdown'),
+                  sig=sig, state=state, fault=fault)
+        if param_fault is not None:
+            src.check('documented-fault-for-bad-parameter', fault == param_fault, sig=sig, fault=fault,
+                      expected=param_fault)
+            src.check('rejected-request-has-no-effect', before == after, sig=sig, before=before, after=after)
+        if method in ('restart', 'shutdown') and not core.state_modes.master_identifier and fault is not None:
+            src.check('no-master-is-a-documented-fault', fault == BAD_STATE, sig=sig, fault=fault)
+    if fault in (BAD_STATE, NOT_MANAGED, BAD_NAME, INCORRECT_PARAMETERS):
+        # a rejected request; (a request that was accepted and failed - ABNORMAL_TERMINATION - may have published the
+        # forced state of the process)
+        src.check('fault-means-no-request', before['outbox'] == after['outbox'] and before['orders'] == after['orders'],
+                  sig=sig, fault=fault)
+    elif fault is not None:
+        src.check('fault-means-no-supervisor-order', before['orders'] == after['orders'], sig=sig, fault=fault)
+    # the cluster goes on without internal error
+    for _ in range(2):
+        for c in cl.live():
+            c.tick()
+            cl.drain(hold)
+    src.check('no-internal-error', not cl.criticals(), sig=sig, log=cl.criticals()[:1])
+
+
 HARNESSES = [
+    Harness('H17h', history_gate, quick={}, thorough={}, reach=('gated', 'allowed', 'other-differs-from-its-master'),
+            timeout=(120, 300),
+            doc='gate on the Master and on the other instance of a real cluster brought to 8 situations by real histories (incl. an instance that lost its Master / is in ELECTION before it)'),
     Harness('H17', gate, quick={}, thorough={}, reach=('gated', 'allowed', 'bad-parameter'), timeout=(150, 300),
             doc='method x state x Master/non-Master/no Master x parameter classes'),
 ]
